@@ -57,6 +57,7 @@ type Request struct {
 
 	Optimize  bool `json:",omitempty"`
 	SkipMain  bool `json:",omitempty"` // only initialise (NewVM); used with Invocations
+	Annotations bool `json:",omitempty"` // evaluate the compiled function annotations the way cmd/testing_run.go does (after NewVM, before main)
 	Invocations []Invocation `json:",omitempty"`
 
 	// print / transform
@@ -107,6 +108,7 @@ type RunResult struct {
 	InitPanic  string `json:",omitempty"`
 	Writes     []string
 	Triggers   []TriggerCall
+	Annotations []string `json:",omitempty"` // "module.fn: ident" / "module.fn: trigger <connective> <source>(<displayed argument list>)", sorted
 	Singletons []string
 	Outcome    Outcome
 	Polls      int64
